@@ -8,7 +8,9 @@
    allowance exceeds a tenth of the property's tolerance the case is *ill-conditioned* and is compared with
    the Spec oracle (mpmath quadrature of the convolution) at the property's tolerance instead.
    A disagreement beyond the allowance is handed to the oracle: if the implementation breaks the property
-   at that input it is a violation (with the input as replay), otherwise a broken correspondence.
+   at that input it is a violation (with the input as replay), otherwise a broken correspondence; before
+   settling for the latter the same normalised point is evaluated on its location-scale images
+   (b-a in {1e-2, 1e-4, 1e-7, 1e3}, a in {0, +-1e3 (b-a)}) and the first violating image is the replay.
 2. *Conformance* — on a stratified subset the property itself is evaluated on the implementation against the
    oracle with the property's thresholds, so that the unchanged tree's conformance is measured every run:
    2.5e-5 (cdf; o = 0 or o >= 1e-6 (b-a)), 0.83 sqrt(s) / 0.4 c s (0 < o < 1e-6 (b-a)), range, limits at
@@ -261,6 +263,40 @@ class Conformance:
         return True
 
 
+IMAGE_WIDTHS = (1e-2, 1e-4, 1e-7, 1e3)
+
+
+def image_search(conf, NQ, a, b, c, o, cv, y):
+    """failing-input search beyond the disagreeing instance: NoisyQuadratic is a location-scale family, so the same
+    (c, s = o/(b-a), shape, (y-a)/(b-a)) is evaluated on its images b-a in {1e-2, 1e-4, 1e-7, 1e3}, a in {0, +-1e3 (b-a)}
+    against the oracle (recomputed at the image's exact floats); the first violating image becomes the replay"""
+    if not (b > a) or abs(y) == INF:
+        return False
+    s, t = o / (b - a), (y - a) / (b - a)
+    for w in IMAGE_WIDTHS:
+        for a2 in (0.0, 1e3 * w, -1e3 * w):
+            b2, o2, y2 = a2 + w, s * w, a2 + w * t
+            if regime_of(a2, b2, o2) != regime_of(a, b, o):
+                continue
+            conf.rep.count("location_scale_images_searched")
+            try:
+                d = NQ(a2, b2, c, o2, cv)
+                with np.errstate(all="ignore"):
+                    ic, ip = float(d.cdf(y2)), float(d.pdf(y2))
+            except Exception as e:
+                conf.rep.violate(what="cdf/pdf raised on a valid input", error=repr(e), input=inp_of(a2, b2, c, o2, cv, y2),
+                                 call="NoisyQuadraticDistribution.cdf", found_by="location-scale image of a disagreement")
+                return True
+            why = "location-scale image of a disagreement"
+            if not (0.0 <= ic <= 1.0):
+                conf.rep.violate(what="cdf(y) outside [0, 1]", input=inp_of(a2, b2, c, o2, cv, y2), observed=ic,
+                                 call="NoisyQuadraticDistribution.cdf", found_by=why)
+                return True
+            if not conf.cdf(a2, b2, c, o2, cv, y2, ic, why=why) or not conf.pdf(a2, b2, c, o2, cv, y2, ip, why=why):
+                return True
+    return False
+
+
 def run(seed, tier, replay=None):
     from opda.parametric import NoisyQuadraticDistribution as NQ
     import noisy_oracle as NO
@@ -331,6 +367,13 @@ def run(seed, tier, replay=None):
         rep.count("convex" if cv else "concave")
     replies = drv.run(reqs)
 
+    images_left = [4]          # disagreeing instances whose location-scale images are searched
+
+    def search_images(a, b, c, o, cv, y):
+        if images_left[0] > 0:
+            images_left[0] -= 1
+            image_search(conf, NQ, a, b, c, o, cv, y)
+
     stats = dict(cdf_cases=0, pdf_cases=0, ill_cdf=0, ill_pdf=0, tight_cdf=0, tight_pdf=0, worst_cdf_excess=0.0, worst_pdf_excess=0.0,
                  max_allowance_used_cdf=0.0)
     spec_pool = []
@@ -394,6 +437,7 @@ def run(seed, tier, replay=None):
             else:
                 ok = conf.cdf(a, b, c, o, cv, y, ic, why="disagreement")
                 if ok:
+                    search_images(a, b, c, o, cv, y)
                     rep.disagree(op="noisy.cdf", input=inp_of(a, b, c, o, cv, y), model=mc, impl=ic,
                                  allowance=tolc, note="model and implementation differ beyond the jitter allowance; "
                                  "the implementation still meets the property at this input")
@@ -423,6 +467,7 @@ def run(seed, tier, replay=None):
             else:
                 ok = conf.pdf(a, b, c, o, cv, y, ip, why="disagreement")
                 if ok:
+                    search_images(a, b, c, o, cv, y)
                     rep.disagree(op="noisy.pdf", input=inp_of(a, b, c, o, cv, y), model=mp_, impl=ip,
                                  allowance=tolp / wref, note="model and implementation differ beyond the jitter allowance; "
                                  "the implementation still meets the property at this input (or the property makes no claim)")
